@@ -85,6 +85,8 @@ func (m *Mesh) ReplayStream(kind string) ReplayObs {
 		cn, err = m.A.DialContext(ctx, "tcp", fmt.Sprintf("%s:%d", m.Domain, port))
 	case "forward":
 		cn, err = m.A.DialForward(ctx, "svc")
+	case "forward6":
+		cn, err = m.A.DialForward(ctx, "svc6")
 	}
 	if err != nil {
 		o.OpenErr = err.Error()
